@@ -190,8 +190,8 @@ func main() {
 			"method bodies compiled one at a time (MethodCheckConcurrencyLimit=1)",
 		},
 		CaseTimeout:      120 * time.Second,
-		QuickDeadline:    20 * time.Minute, // the machine is shared: about 10 CPU-minutes of work
-		ThoroughDeadline: 90 * time.Minute,
+		QuickDeadline:    12 * time.Minute,
+		ThoroughDeadline: 60 * time.Minute,
 		Setup: func(c *engine.Ctx) {
 			elkrun.Init()
 			m, err := loadVMModel(threadSource())
